@@ -39,7 +39,7 @@ Definition chk_sort (c : sort_case) : bool :=
 (* MOASHA sequence: rf, max_t, initial brackets, priority table, events
    (bracket index, trial, cur_iter, metrics (already signed), implementation decision) *)
 Definition prio_tbl := list (list vec * list Q).
-Definition vec_eqb := list_eqb Qeqb.
+Definition vec_eqb := list_eqb xeqb.
 Fixpoint prio_of (tbl : prio_tbl) (X : list vec) : list Q :=
   match tbl with
   | [] => []
@@ -69,8 +69,18 @@ Definition chk_seq (c : seq_case) : bool :=
 """
 
 
+def xql(v):
+    """literal of model/Pareto.v [xq]: a finite float as exact rational, +-inf as PInf / NInf"""
+    v = float(v)
+    if v == float("inf"):
+        return "PInf"
+    if v == float("-inf"):
+        return "NInf"
+    return "(Fin %s)" % q(v)
+
+
 def vecs(X):
-    return "(" + lst([lst([q(float(v)) for v in row]) for row in X]) + ")"
+    return "(" + lst([lst([xql(v) for v in row]) for row in X]) + ")"
 
 
 def gen_matrix(rng, nmax=40):
@@ -158,8 +168,7 @@ def run(ctx, replay=None):
                           case=dict(kind="mask", X=X.tolist(), shape=list(X.shape)),
                           signature=dict(function="pareto_efficient", n=int(X.shape[0])))
         if not np.all(np.isfinite(X)):
-            ctx.h("mask_nonfinite_python_checker_only", "n")
-            continue
+            ctx.h("mask_with_infinite_values", "n")
         cases.append("(%s, %s)" % (vecs(X), lst([blit(b) for b in mask])))
         meta.append(dict(kind="mask", X=X.tolist(), shape=list(X.shape), impl=mask))
     if cases:
@@ -204,8 +213,7 @@ def run(ctx, replay=None):
                           case=dict(kind="sort", X=X.tolist(), shape=list(X.shape), dim=dim, max_items=mx),
                           signature=dict(function="nondominated_sort"))
         if not np.all(np.isfinite(X)):
-            ctx.h("sort_nonfinite_python_checker_only", "n")
-            continue
+            ctx.h("sort_with_infinite_values", "n")
         scases.append("(%s, %s, %s, %s)" % (vecs(X), optlit(dim, natlit), optlit(mx, natlit),
                                             lst([lst([natlit(i) for i in l]) for l in layers])))
         smeta.append(dict(kind="sort", X=X.tolist(), shape=list(X.shape), dim=dim, max_items=mx, impl=layers))
@@ -263,7 +271,7 @@ def gen_moasha_case(rng):
     assign = {t: rng.randrange(brackets) for t in range(ntrials)}
     grid = rng.choice([3, 5, 100, -1])   # -1: one huge coordinate shared by all reports + small differences elsewhere
     hugecol = rng.randrange(nmet)
-    hugeval = rng.choice([3e17, 2.0 ** 60, 1e300])
+    hugeval = rng.choice([3e17, 2.0 ** 60, 1e300] + ([float("inf")] * 2 if prio in ("nd", "nd1", "ndk") else []))
     stride_mode = rng.choice([0, 0, 3, 9])
     evs = []
     alive = list(range(ntrials))
@@ -400,7 +408,7 @@ def moasha_sequences(ctx, replay):
             if dec == "STOP":
                 stopped.add(t)
                 sch.on_trial_remove(trial)
-            ev_terms.append("(%s, %s, %s, %s, %s)" % (natlit(bi), zlit(t), q(it), qlist(signed), dec))
+            ev_terms.append("(%s, %s, %s, %s, %s)" % (natlit(bi), zlit(t), q(it), lst([xql(v) for v in signed]), dec))
         ctx.count(("moasha", spec), nontrivial=nontriv)
         ctx.h("moasha_prio", spec["prio"])
         ctx.h("moasha_decisions", "STOP", decisions.count("STOP"))
